@@ -2271,7 +2271,6 @@ static int32_t concatenate_dn(psPool_t *pool,
     int num_dcs;
     x509OrgUnit_t *orgUnit;
     int num_ous;
-    int first_len = 1;
     int first_field = 1;
     const x509DNAttributeType_t *parse_order = dn->attributeOrder;
     x509DNAttributeType_t print_order[DN_NUM_ATTRIBUTES_MAX] = {0};
@@ -2323,13 +2322,15 @@ static int32_t concatenate_dn(psPool_t *pool,
     int32_t nthOccurrenceDC = 0;
     x509DNAttributeType_t attr;
 
+    /*
+       total_len is an upper bound for the output: every field is counted
+       with a ", " separator. Which field is printed first (and thus has
+       no separator) depends on the print order chosen below, not on the
+       order in which the lengths are added up here.
+     */
 #  define INC_LEN(X)                                \
     if (dn->X ## Len > 0) {                         \
-        if (!first_len && X ## _prefix[0] != '/') { \
-            total_len += 2;                         \
-        }                                           \
-        first_len = 0;                              \
-        total_len += Strlen(X ## _prefix) +         \
+        total_len += 2 + Strlen(X ## _prefix) +     \
             dn->X ## Len -                          \
             DN_NUM_TERMINATING_NULLS;               \
     }
@@ -2348,15 +2349,7 @@ static int32_t concatenate_dn(psPool_t *pool,
                 psTraceCrypto("psX509GetOrganizationalUnit failed\n");
                 return PS_FAILURE;
             }
-            if (first_len)
-            {
-                first_len = 0;
-            }
-            else
-            {
-                total_len += 2;
-            }
-            total_len += Strlen(organizationalUnit_prefix);
+            total_len += 2 + Strlen(organizationalUnit_prefix);
             total_len += orgUnit->len - DN_NUM_TERMINATING_NULLS;
         }
     }
@@ -2388,15 +2381,7 @@ static int32_t concatenate_dn(psPool_t *pool,
     {
         for (i = 0; i < num_dcs; i++)
         {
-            total_len += Strlen(domainComponent_prefix);
-            if (first_len)
-            {
-                first_len = 0;
-            }
-            else
-            {
-                total_len += 2;
-            }
+            total_len += 2 + Strlen(domainComponent_prefix);
             dc = psX509GetDomainComponent(dn, i);
             if (dc == NULL)
             {
@@ -2615,11 +2600,13 @@ static int32_t concatenate_dn(psPool_t *pool,
         }
     }
 
-    psAssert(total_len == (p - str));
+    /* Fewer octets than counted are written when the name holds more
+       attributes than attributeOrder[] can record. */
+    psAssert((size_t) (p - str) <= total_len);
 
+    *out_str_len = (size_t) (p - str);
     *p++ = '\0';
     *out_str = str;
-    *out_str_len = total_len;
 
     return PS_SUCCESS;
 }
